@@ -49,21 +49,64 @@ func constructedHdrOpts() gen.HeaderOpts {
 	}
 }
 
-// constructLib builds the unsigned in-memory library message of a spec.
+// constructLib builds the unsigned in-memory library message of a spec. Half of
+// the messages (those with an even payload length) are built the way the
+// package documentation shows it - New*Message / NewSignature constructors whose
+// header maps are then filled, SetAlgorithm for a typed alg - the other half as
+// struct literals.
 func constructLib(spec *gen.MsgSpec) *libMsg {
 	m := &libMsg{kind: spec.Kind}
 	h := bridge.Headers(spec.Prot, spec.Unprot)
 	payload := append([]byte{}, spec.Payload...)
+	viaConstructors := len(spec.Payload)%2 == 0
+	fill := func(dst *cose.Headers, src cose.Headers) {
+		for k, v := range src.Protected {
+			if a, ok := v.(cose.Algorithm); ok && k == any(int64(1)) {
+				dst.Protected.SetAlgorithm(a)
+				continue
+			}
+			dst.Protected[k] = v
+		}
+		for k, v := range src.Unprotected {
+			dst.Unprotected[k] = v
+		}
+	}
 	switch spec.Kind {
 	case refcose.KSign1:
+		if viaConstructors {
+			m.s1 = cose.NewSign1Message()
+			fill(&m.s1.Headers, h)
+			m.s1.Payload = payload
+			break
+		}
 		m.s1 = &cose.Sign1Message{Headers: h, Payload: payload}
 	case refcose.KSign1Untagged:
+		if viaConstructors {
+			m.u1 = (*cose.UntaggedSign1Message)(cose.NewSign1Message())
+			fill(&m.u1.Headers, h)
+			m.u1.Payload = payload
+			break
+		}
 		m.u1 = &cose.UntaggedSign1Message{Headers: h, Payload: payload}
 	case refcose.KSign:
+		if viaConstructors {
+			m.sm = cose.NewSignMessage()
+			fill(&m.sm.Headers, h)
+			m.sm.Payload = payload
+			for _, s := range spec.Sigs {
+				sg := cose.NewSignature()
+				fill(&sg.Headers, bridge.Headers(s.Prot, s.Unprot))
+				m.sm.Signatures = append(m.sm.Signatures, sg)
+			}
+			break
+		}
 		m.sm = &cose.SignMessage{Headers: h, Payload: payload}
 		for _, s := range spec.Sigs {
 			m.sm.Signatures = append(m.sm.Signatures, &cose.Signature{Headers: bridge.Headers(s.Prot, s.Unprot)})
 		}
+	}
+	if viaConstructors {
+		stats.Class("built-with-constructors")
 	}
 	return m
 }
